@@ -48,6 +48,9 @@ fn run<P: PatProp>(ctx: &RunCtx, prop: &P, n: &Node, text: &str) -> Option<Found
                 if let Verdict::Fail(f) = prop.eval(ctx, &p, n, text, pos) {
                     return Some(Found { node: n.clone(), text: text.to_string(), pos, fail: f });
                 }
+                if !prop.all_offsets() {
+                    return None;
+                }
                 match text[pos..].chars().next() {
                     Some(c) => pos += c.len_utf8(),
                     None => return None,
@@ -78,4 +81,107 @@ pub fn run_diff(data: &[u8]) -> Option<Found> {
 pub fn describe(f: &Found) -> String {
     let Fail { kind, expected, actual } = &f.fail;
     format!("pattern={:?} text={:?} pos={} kind={} expected={} actual={}", f.node.to_pattern(), f.text, f.pos, kind, expected, actual)
+}
+
+// ---------------------------------------------------------------------------------------------
+// generic target `fuzz_prop`: the property is chosen at run time (environment variable FRV_FUZZ_PROP)
+
+static CTXP: OnceLock<RunCtx> = OnceLock::new();
+
+fn pctx(prop: &str) -> &'static RunCtx {
+    CTXP.get_or_init(|| {
+        let id: &'static str = crate::props::ALL.iter().find(|p| prop.starts_with(**p)).copied().unwrap_or("C05");
+        RunCtx { prop: id, tier: Tier::Thorough, seed: 0, known: Known::load(), start: std::time::Instant::now(), strict: false }
+    })
+}
+
+fn split_text(data: &[u8], alpha: &[char], maxlen: usize) -> Option<(String, Vec<u8>)> {
+    if data.len() < 4 {
+        return None;
+    }
+    let (tb, pb) = data.split_at(data.len() / 4);
+    let mut d = Dec::new(tb);
+    Some((gen::decode_text(&mut d, alpha, maxlen), pb.to_vec()))
+}
+
+/// names accepted by `prop_found`
+pub const FUZZ_PROPS: [&str; 12] = ["C02-flags", "C03", "C04", "C07", "C08", "C09", "C10", "C11", "C14", "C15", "C16", "C19"];
+
+/// pattern-level properties: bytes -> (AST of the property's grammar, text over its alphabet) -> the property's own oracle
+pub fn prop_found(prop: &str, data: &[u8]) -> Option<Found> {
+    use crate::props::{api, c01, c03, c04, c07, c14, c19};
+    let ctx = pctx(prop);
+    const API_ALPHA: [char; 6] = ['a', 'b', 'é', '\n', '-', '😀'];
+    match prop {
+        "C02-flags" => {
+            let (t, pb) = split_text(data, &gen::FLAG_SIGMA, 7)?;
+            let n = gen::decode_pattern(&RandCfg::flagged(), &pb);
+            run(ctx, &c01::prop(true), &n, &t)
+        }
+        "C03" => {
+            let (t, pb) = split_text(data, &DIFF_ALPHA, 7)?;
+            let n = c03::decode_injected(&RandCfg::core(), &pb)?;
+            run(ctx, &c03::Inject, &n, &t)
+        }
+        "C04" => {
+            let (t, pb) = split_text(data, &['a', 'b', 'B', 'é', '\n', ' '], 7)?;
+            let cfg = RandCfg { lits: vec!['a', 'b', 'B', 'é'], keepout: false, lookbehind: false, plain: true, ..RandCfg::core() };
+            let n = gen::decode_pattern(&cfg, &pb);
+            run(ctx, &c04::VsRegex { named: None }, &n, &t)
+        }
+        "C07" => {
+            let (t, pb) = split_text(data, &SEARCH_ALPHA, 8)?;
+            run(ctx, &c07::Limits { only_pos0: false }, &gen::decode_pattern(&RandCfg::wild(), &pb), &t)
+        }
+        "C08" | "C10" | "C11" => {
+            let (t, pb) = split_text(data, &API_ALPHA, 7)?;
+            let n = gen::decode_pattern(&RandCfg { contg: true, ..RandCfg::core() }, &pb);
+            match prop {
+                "C08" => run(ctx, &api::IterModel, &n, &t),
+                "C10" => run(ctx, &api::SplitModel, &n, &t),
+                _ => run(ctx, &api::ReplaceModel, &n, &t),
+            }
+        }
+        "C09" => {
+            let (t, pb) = split_text(data, &SEARCH_ALPHA, 7)?;
+            run(ctx, &api::Coherence, &gen::decode_pattern(&RandCfg::wild(), &pb), &t)
+        }
+        "C14" => {
+            let (t, pb) = split_text(data, &['a', 'A', 'b', 'B'], 6)?;
+            let cfg = RandCfg { lits: vec!['a', 'B', 'b', 'A'], keepout: true, ..RandCfg::core() };
+            run(ctx, &c14::Options, &gen::decode_pattern(&cfg, &pb), &t)
+        }
+        "C15" => {
+            let (t, pb) = split_text(data, &['a', 'b', 'c', '-'], 7)?;
+            let n = gen::decode_pattern(&RandCfg::cond(), &pb);
+            if !n.has_cond() {
+                return None;
+            }
+            run(ctx, &c01::prop_cond(), &n, &t)
+        }
+        "C16" => {
+            let (t, pb) = split_text(data, &['a', 'b', 'é'], 6)?;
+            let n = gen::decode_pattern(&RandCfg::wild(), &pb[1.min(pb.len())..]);
+            if n.n_groups() == 0 {
+                return None;
+            }
+            run(ctx, &api::Meta { force_vm: pb.first().map_or(false, |b| b & 1 == 1) }, &n, &t)
+        }
+        "C19" => {
+            let (t, pb) = split_text(data, &DIFF_ALPHA, 6)?;
+            let n = gen::decode_pattern(&RandCfg::core(), &pb[1.min(pb.len())..]);
+            run(ctx, &c19::Respell { variant: pb.first().copied().unwrap_or(0) as usize }, &n, &t)
+        }
+        _ => None,
+    }
+}
+
+/// all properties with a fuzz decoder: Some((case, failure)) = violation
+pub fn prop_violation(prop: &str, data: &[u8]) -> Option<(serde_json::Value, Fail)> {
+    match prop {
+        "C12" => crate::props::c12::fuzz_one(data),
+        "C17" => crate::props::c17::fuzz_one(data),
+        "C20" => crate::props::c20::fuzz_one(data),
+        _ => prop_found(prop, data).map(|f| (crate::core::pat_case(&f.node.to_pattern(), &f.node, &f.text, f.pos, serde_json::Value::Null), f.fail)),
+    }
 }
